@@ -38,7 +38,10 @@ def ACOSH(number):
     number = utils.parse_number(number)
     if isinstance(number, error.XLError):
         return number
-    return math.log(number + math.sqrt(number * number - 1))
+    # not log(x + sqrt(x*x - 1)): x*x overflows to inf from 1e154 on (and for large
+    # negative x, which then came back as inf instead of an error), and the
+    # formula loses half the digits just above 1
+    return math.acosh(number)
 
 
 @dispatcher.register_for('ACOT')
